@@ -479,7 +479,10 @@ var c03XShapes = []xshape{
 	{cs: []xclause{{qclause: qclause{s: bS, p: cA, o: bO, at: "t"}, lo: -1, hi: -1}, {qclause: qclause{s: bZ, p: pos{cb: 'b'}, o: cA}, oAtBind: "t", lo: -1, hi: -1}}, okinds: []int{0, 4}, temporal: true},
 	// 31: ... and the other way round
 	{cs: []xclause{{qclause: qclause{s: bZ, p: pos{cb: 'b'}, o: cA}, oAtBind: "t", lo: -1, hi: -1}, {qclause: qclause{s: bS, p: cA, o: bO, at: "t"}, lo: -1, hi: -1}}, okinds: []int{0, 4}, temporal: true},
-	// 32..36: FILTER clauses (isTemporal / isImmutable on a predicate binding and on a
+	// an AT alias on the object joined with the anchor binding of another clause, both orders
+	{cs: []xclause{{qclause: qclause{s: bS, p: bP, o: bO}, oAt: "t", lo: -1, hi: -1}, {qclause: qclause{s: bZ, p: pos{cb: 'b'}, o: pos{bind: "w"}, at: "t"}, lo: -1, hi: -1}}, okinds: []int{0, 4}, temporal: true},
+	{cs: []xclause{{qclause: qclause{s: bZ, p: pos{cb: 'b'}, o: pos{bind: "w"}, at: "t"}, lo: -1, hi: -1}, {qclause: qclause{s: bS, p: cA, o: bO}, oAt: "t", lo: -1, hi: -1}}, okinds: []int{0, 4}, temporal: true},
+	// FILTER clauses (isTemporal / isImmutable on a predicate binding and on a
 	// predicate-valued object binding; latest on the predicate binding of an open clause)
 	{cs: []xclause{xq(qclause{s: bS, p: bP, o: bO})}, okinds: []int{0}, temporal: true, filter: "filter isTemporal(?p)",
 		keep: func(e env, _ []*dspec) bool { return e["p"].pk == 1 }},
